@@ -19,6 +19,9 @@ KINDS = {
  "r10": """  (1) NUMERIC EDGE: an arithmetic expression is rewritten (a division moved, a subtraction reordered, an int narrowed to int32/uint, a rounding changed from round-half-up to truncation, a modulo of a possibly negative number, a midpoint computed as (a+b)/2) so that it is wrong only for particular magnitudes or signs the quantifier covers - never for small positive values.
   (2) ORDER DEPENDENCE: an ordered structure is replaced by a map that is ranged over, a stable sort by an unstable one, a "first wins" by a "last wins", or a tie is broken differently - so that the result is wrong (or differs from run to run) only when two or more elements tie, collide or are equal in the key that is compared.
   (3) A CUT-OFF AT AN ORDINARY NUMBER: a fast path, a chunk size, a pre-sized buffer or a "small input" special case keyed on a constant that is NOT a power of two, not a power of ten and not one off either (12, 20, 50, 75, 96, 120, 300, 750, 1200, 1500 ...), wrong exactly at or just beyond that size and right below it.""",
+ "r11": """  (1) CALLER-SUPPLIED CODE: the library calls back into code the caller supplies (a Less method, an Operation, a filter / consensus / evaluation function, a Mapper, a feature's accessor methods) - change how or when it is called (once more or once less, on a copy instead of the original, after instead of before an update, while a lock or a half-updated structure is held) so that the property breaks only for callbacks that are legal but not trivial: one that looks at the object it was called from, keeps state between calls, returns equal for distinct elements, or panics.
+  (2) ZERO VALUES AND NIL: the change is wrong only for a zero-value or nil input the quantifier covers and the API accepts - a nil slice where an empty one works, a zero-value struct used without its constructor, a nil function or filter argument documented as "none", a zero count / zero width / zero offset, an empty name.
+  (3) THE SAME OBJECT TWICE: wrong only when one object is passed in two roles that are allowed to coincide - destination equal to source, a sequence aligned against itself, a feature that is its own mate or location, one slice given for two parameters, a pair added twice, a row that occurs twice in one container.""",
  "r7": """  (1) EDGE OF THE VALUE DOMAIN: wrong only for an extreme or degenerate value the quantifier covers - the largest / smallest representable number, zero length, an empty collection, all elements equal, duplicates, an all-gap or all-invalid input, the last valid code of a table - and right for every ordinary value.  (Not a size threshold: a value.)
   (2) TWO FEATURES THAT MEET: two options, modes or operations each of which works alone and which are wrong only in combination (this flag AND that mode; this operation directly after that one on the same object; both ends at once) - the change sits where the two code paths meet.
   (3) LIFETIME: something lives too long or not long enough - a result that aliases an internal buffer which a LATER call reuses, a goroutine / file / channel left behind on a rare path, a resource released while a result still refers to it, state of a finished (closed, cleaned-up, drained) object that a following legal call trips over.""",
